@@ -201,6 +201,7 @@ class Facts:
         self.enums = {}
         self.consts = {}
         self.strconsts = {}
+        self.aliases = {}
         self.meta = {}
         self._bodies = {}
         floors = FLOORS_A if config == "A" else FLOORS_B
@@ -243,6 +244,8 @@ class Facts:
                     self.consts[d["const"]] = int(d["value"])
                 elif "strconst" in d:
                     self.strconsts[d["strconst"]] = d["value"]
+                elif "alias" in d:
+                    self.aliases[d["alias"]] = d["ty"]
                 elif "meta" in d:
                     self.meta[d["meta"]] = d
         for crate, floor in floors.items():
